@@ -28,6 +28,8 @@ var documentedPayloadKeys = []string{
 }
 
 func runC19(c *eng.Ctx) {
+	c.Rule("R19.5", "K5")
+	ruleServerKeepsTheCallersConfig(c)
 	c.Rule("R19.3", "K5")
 	ruleInstanceIDComesFromTheIDFile(c)
 	p := c.P
